@@ -7,10 +7,10 @@ CONSTANTS
   TreasuryOf <- MCTreasuryOf
   Treasury = {"t1", "t2", "t3"}
   Payer = {"p1"}
-  MaxBal = 4
+  MaxBal = 3
   AskSet = {1, 2}
   MaxSrc = 3
-  MaxLimit = 6
+  MaxLimit = 4
   MaxReq = 2
   SigFeeSet = {2}
   SigDenom = "u"
